@@ -204,3 +204,7 @@ package actions
 //@   requires initOK: !isnil(a.key)
 //@   modifies colVer
 //@   ensures setvarEffect(a, txCollection(tx, a.collection), lower(expand(a.key, tx)), ite(isnil(a.value), "", expand(a.value, tx)), old(colVer), colVer)
+
+// ---- build-cache keys (C13)
+//@ func parseCtl props C13
+//@   memoize re
